@@ -245,6 +245,73 @@ Definition kernel_run (c : cfg) (args : list lit) : obs :=
   let rs := map (kernel_reads c) args in
   match first_stop rs with Some o => o | None => OList rs end.
 
+(* ---------------------------------------------------------------- scopes (src/c/scope.cpp) *)
+(* occa::c::getDtype(occaType), as the *name* that dtype prints with.  The occa dtype system has
+   no unsigned builtins: dtype::uint8 = dtype::get<uint8_t>() = dtype::char_, and likewise
+   uint16 -> short_, uint32 -> int_, uint64 -> long_ (src/dtype/builtins.cpp:18-25, 80-118). *)
+Definition getDtype (o : otype) : res cname :=
+  match o_tag o with
+  | TK KBool => Ok CNBool
+  | TK KI8 => Ok CNChar | TK KU8 => Ok CNChar
+  | TK KI16 => Ok CNShort | TK KU16 => Ok CNShort
+  | TK KI32 => Ok CNInt | TK KU32 => Ok CNInt
+  | TK KI64 => Ok CNLong | TK KU64 => Ok CNLong
+  | TK KF32 => Ok CNFloat
+  | TK KF64 => Ok CNDouble
+  | TNull => Ok CNVoid
+  | _ => Stop OErr                              (* "Invalid value type"; memory handles are not modelled *)
+  end.
+
+(* occa::addToScope: scope_.add({name, kernelArg(value), getDtype(value), isConst}) *)
+Definition addToScope (c : cfg) (o : otype) : res (karg * cname) :=
+  match kernelArg c o with
+  | Stop ob => Stop ob
+  | Ok a => match getDtype o with
+            | Ok d => Ok (a, d)
+            | Stop ob => Stop ob
+            end
+  end.
+
+(* scopeKernelArg::getDeclaration(): [const] dtype [*]name *)
+Definition scope_decl (c : cfg) (isConst : bool) (l : lit) : obs :=
+  match addToScope c (lit_otype l) with
+  | Ok (a, d) => ODecl isConst d (ka_isPointer a)
+  | Stop ob => ob
+  end.
+
+(* the C scalar type behind a declared name *)
+Definition decl_kind (d : cname) : option kind :=
+  match d with
+  | CNBool => Some KBool | CNChar => Some KI8 | CNUChar => Some KU8 | CNShort => Some KI16
+  | CNUShort => Some KU16 | CNInt => Some KI32 | CNUInt => Some KU32 | CNLong => Some KI64
+  | CNULong => Some KU64 | CNFloat => Some KF32 | CNDouble => Some KF64 | CNVoid => None
+  end.
+
+Definition same_class (kd k : kind) : bool :=
+  (size_of kd =? size_of k) && Bool.eqb (is_float kd) (is_float k) &&
+  Bool.eqb (kind_eqb kd KBool) (kind_eqb k KBool).
+
+(* what the inlined kernel's parameter, declared with the scope entry's dtype, reads from the
+   argument (kernelBuilder::run pushes scope.getArg(name); Serial passes a pointer to the
+   primitive): the same bytes seen at the declared type *)
+Definition scope_reads (c : cfg) (l : lit) : obs :=
+  match addToScope c (lit_otype l) with
+  | Stop ob => ob
+  | Ok (a, d) =>
+      match decl_kind d, ka_pt a, ka_val a with
+      | Some kd, PTK k, PInt v =>
+          if same_class kd k
+          then OType (mk_scalar kd (if is_float kd then v else int_cast kd v))
+          else OUB
+      | None, PTPtr, PNull => OType occaNull
+      | _, _, _ => OUB
+      end
+  end.
+
+Definition scope_run (c : cfg) (args : list lit) : obs :=
+  let rs := map (scope_reads c) args in
+  match first_stop rs with Some o => o | None => OList rs end.
+
 (* ---------------------------------------------------------------- occa::json *)
 Inductive json :=
 | JNone | JNull
@@ -708,6 +775,8 @@ Definition step (F : fops) (cf : cfg) (st : mstate) (o : op) : mstate * obs :=
                     end)
   | OpK l => (st, match kernelArg cf (lit_otype l) with Ok a => OKArg a | Stop ob => ob end)
   | OpKRun args => (st, kernel_run cf args)
+  | OpScopeDecl ic l => (st, scope_decl cf ic l)
+  | OpScopeRun ic args => (st, scope_run cf args)
   | OpNew n => occaCreateJson st n
   | OpFree n => occaFree st n
   | OpIsUndef n => (st, OBool (negb (o_magic (sl_val (m_tab st n)))))
